@@ -115,6 +115,43 @@ def mk_other(impure):
 
 
 @contract
+class MergeForLoops_guards_contract:
+    """a nest is only merged when both loops count from 0 in steps of 1 (the index reconstruction k div ub / k mod ub
+    numbers the iterations of both loops from 0)"""
+    target = "snaxc.transforms.pipeline.pipeline_canonicalize_for.MergeForLoops.match_and_rewrite"
+    shapes = [dict(kind="guards")]
+    compare_ret = False
+
+    def args(sh, sym):
+        return [sym.int("lb", 0), sym.int("step", 1), sym.int("lb_p", 0), sym.int("step_p", 1), sym.int("ub", 1), sym.int("ub_p", 0)]
+
+    def run(sh, a):
+        lb, st, lb_p, st_p, ub, ub_p = a
+        inner = mk_for(lb, ub, st, [mk_other(True)])
+        parent = mk_for(lb_p, ub_p, st_p, [inner])
+        rw = PatternRewriter(inner)
+        pcf.MergeForLoops().match_and_rewrite(inner, rw)
+        return dict(rewritten=len(rw.log) > 0)
+
+    def native_run(sh, a):
+        from xdsl.dialects.builtin import ModuleOp
+        lb, st, lb_p, st_p, ub, ub_p = a
+        inner = mk_for(lb, ub, st, [mk_other(True)])
+        parent = mk_for(lb_p, ub_p, st_p, [inner])
+        mod = ModuleOp([parent.lb.owner, parent.ub.owner, parent.step.owner, parent])
+        rw = PatternRewriter(inner)
+        pcf.MergeForLoops().match_and_rewrite(inner, rw)
+        return dict(rewritten=rw.has_done_action)
+
+    def ensures(sh, a, ret):
+        lb, st, lb_p, st_p, ub, ub_p = a
+        check("merged only if BOTH loops start at 0 and step by 1", implies(ret["rewritten"], lb == 0 and lb_p == 0 and st == 1 and st_p == 1))
+
+    def canary(sh, a, ret):
+        check("canary: never merged", not ret["rewritten"])
+
+
+@contract
 class MergeForLoops_contract:
     """merging a two-deep nest into one loop: index reconstruction is the lexicographic bijection
     k <-> (k div ub, k mod ub), and every side-effecting operation still executes the same number of times"""
